@@ -17,7 +17,7 @@ def prop(pid, units, level, technique, design_ref, text, note):
 
 
 prop("C14",
-     units=[("verus", "u1_cell", None), ("kani", "u1k_cell", None), ("verus", "u10_optloop", None), ("native", "n4_loop_motion", None), ("native", "n6_cell_helpers", None)],
+     units=[("verus", "u1_cell", None), ("kani", "u1k_cell", None), ("verus", "u10_optloop", None), ("native", "n4_loop_motion", None), ("native", "n6_cell_helpers", None), ("native", "n8_trip_counts", None)],
      level="proof",
      technique="Verus deductive proof of trait-level contracts on the real CellType code (all four widths), plus loop-free/width-bounded Kani contract harnesses as counterexample twins",
      design_ref="DESIGN.md section 4-U1, 5-C14",
